@@ -86,12 +86,43 @@ Theorem C20_order : forall cf ops,
 Proof. exact lru_order. Qed.
 Print Assumptions C20_order.
 
-Theorem C20_evicts_least_recent : forall cf ops o x,
+(* LRU eviction at full strength (ttl included).  ss = ghost stamp = logical time of the entry's last use
+   (install, hit, reuse after a wait, recomputation after expiry: C20_stamp_is_last_use + C20_use_refreshes);
+   clk = the logical clock, larger than every stamp (C20_order).  Unconditional, hence in particular under
+   no_inflight_eviction / no_waited_eviction. *)
+Theorem C20_evicts_oldest_use : forall cf ops o x,
   o <> Clear -> In x (dict (run cf ops)) ->
   (forall y, In y (dict (fst (step cf (run cf ops) o))) -> sk y <> sk x) ->
-  forall y, In y (dict (run cf ops)) -> ss x <= ss y.
-Proof. exact lru_evicts_least_recent. Qed.
-Print Assumptions C20_evicts_least_recent.
+  forall y', In y' (dict (fst (step cf (run cf ops) o))) -> ss x < ss y'.
+Proof. exact lru_evicts_oldest_use. Qed.
+Print Assumptions C20_evicts_oldest_use.
+
+Theorem C20_stamp_is_last_use : forall cf ops o y',
+  o <> Clear -> In y' (dict (fst (step cf (run cf ops) o))) ->
+  (exists y, In y (dict (run cf ops)) /\ sk y = sk y' /\ ss y = ss y') \/
+  (call_key cf (run cf ops) o = Some (sk y') /\ clk (run cf ops) <= ss y').
+Proof. exact lru_stamp_is_last_use. Qed.
+Print Assumptions C20_stamp_is_last_use.
+
+Theorem C20_use_refreshes : forall cf ops o k,
+  ((exists c a, o = Call c a /\ key_of cf a = k /\ snd (step cf (run cf ops) o) <> RRejected /\
+      is_zero_max cf = false /\ (forall l, dget k (dict (run cf ops)) <> Some (EPlace l))) \/
+   (exists c l t0 v, o = Resume c /\ phase (run cf ops) c = CLockWait k l t0 /\
+      snd (step cf (run cf ops) o) = RRet v)) ->
+  forall y, In y (dict (fst (step cf (run cf ops) o))) -> sk y = k -> clk (run cf ops) <= ss y.
+Proof. exact lru_use_refreshes. Qed.
+Print Assumptions C20_use_refreshes.
+
+(* F15 (fixed by /repo 21d8dda): the variant of `step` that keeps the position of an expired entry when it is
+   recomputed violates C20_evicts_oldest_use on a history without any F3 / F8 eviction *)
+Theorem C20_refuted_old_expiry_order :
+  exists cf ops o x y',
+    f_inflight (run_old cf (ops ++ [o])) = false /\ f_waited (run_old cf (ops ++ [o])) = false /\
+    o <> Clear /\ In x (dict (run_old cf ops)) /\
+    (forall y, In y (dict (fst (old_expiry_step cf (run_old cf ops) o))) -> sk y <> sk x) /\
+    In y' (dict (fst (old_expiry_step cf (run_old cf ops) o))) /\ ss y' < ss x.
+Proof. exact lru_refuted_old_expiry_order. Qed.
+Print Assumptions C20_refuted_old_expiry_order.
 
 (* ---- an expired entry is recomputed, not served (unconditional) ---- *)
 Theorem C20_expired_recomputed : forall cf s c a v,
